@@ -13,7 +13,7 @@ Theorem resume_rejected hdrdec k ct o roots file faults e :
   resume hdrdec k ct o roots file faults = inr (e, mkdev file [] faults).
 Proof.
   unfold resume_checks, resume.
-  destruct (read_header hdrdec default_maxh file) as [[[[r ver] rest] n]|e0]; [|intros H; injection H as <-; reflexivity].
+  destruct (read_header hdrdec (w_maxh o) file) as [[[[r ver] rest] n]|e0]; [|intros H; injection H as <-; reflexivity].
   destruct (negb (((ver =? 1) && w_v1 o) || ((ver =? 2) && negb (w_v1 o)))); [intros H; injection H as <-; reflexivity|].
   destruct (if w_v1 o then Ok None
             else if negb ct then Err EOther
@@ -40,18 +40,19 @@ Section Reject.
 
   (* the files a session leaves behind: the first read of Resume (ResumableVersion) *)
   Lemma version_of_cut_file c st : fits st ->
-    exists r rest n, read_header hdrdec default_maxh (cut_file c st)
+    exists r rest n, read_header hdrdec (w_maxh o) (cut_file c st)
                      = Ok (r, (if w_v1 o then 1 else 2), rest, n).
   Proof.
     intros Hfit. pose proof (fits_mono _ _ _ _ Hfit) as Hfit0.
-    destruct Hpar as [Hhdr [r0 Hprag] Hmaxh Hmaxh0 Hcid].
+    destruct Hpar as [Hhdr [r0 Hprag] Hmaxh Hcid].
+    assert (Hp10 : 10 <= w_maxh o) by (pose proof (hdr_ge_10 nilroots roots); unfold ResumeInv.hdr in *; lia).
     assert (Hv2 : forall tail, w_v1 o = false ->
-              exists r rest n, read_header hdrdec default_maxh (pragma ++ tail) = Ok (r, 2, rest, n)).
+              exists r rest n, read_header hdrdec (w_maxh o) (pragma ++ tail) = Ok (r, 2, rest, n)).
     { intros tail _. rewrite pragma_is_ld.
-      rewrite (read_header_ld hdrdec default_maxh pragma_body r0 2) by
-        (try exact Hprag; rewrite blen_pragma_body; unfold default_maxh, two63; lia).
+      rewrite (read_header_ld hdrdec (w_maxh o) pragma_body r0 2) by
+        (try exact Hprag; rewrite blen_pragma_body; try exact Hp10; unfold two63; lia).
       eexists _, _, _. reflexivity. }
-    assert (Hlive : exists r rest n, read_header hdrdec default_maxh (live_file st)
+    assert (Hlive : exists r rest n, read_header hdrdec (w_maxh o) (live_file st)
                      = Ok (r, (if w_v1 o then 1 else 2), rest, n)).
     { unfold ResumeInv.live_file, base_file, v2_prefix. destruct (w_v1 o) eqn:Ev.
       - cbn [app]. rewrite (read_payload_header hdrdec o nilroots roots Hpar) by assumption.
@@ -74,7 +75,7 @@ Section Reject.
       destruct (w_v1 o); [apply live_file_nonempty|].
       destruct (ii_flatten _ _); [apply fin_file_nonempty|apply live_file_nonempty]. }
     rewrite reopen_nonempty by exact Hne.
-    unfold resume. rewrite Hv. cbn [w_v1 with_v1].
+    unfold resume. cbn [w_maxh with_v1]. rewrite Hv. cbn [w_v1 with_v1].
     destruct (w_v1 o); reflexivity.
   Qed.
 
@@ -182,12 +183,13 @@ Section Reject.
   Proof.
     intros Hfit Ev Hp H64.
     assert (Hchk : resume_checks hdrdec true (with_dpad o p') roots (fin_file st fi) = Err EOther).
-    { unfold resume_checks.
+    { unfold resume_checks. cbn [w_maxh with_dpad].
       assert (Hcf : cut_file CFinalize st = fin_file st fi \/ True) by (right; exact I).
-      destruct Hpar as [Hhdr [r0 Hprag] Hmaxh Hmaxh0 Hcid].
+      destruct Hpar as [Hhdr [r0 Hprag] Hmaxh Hcid].
+    assert (Hp10 : 10 <= w_maxh o) by (pose proof (hdr_ge_10 nilroots roots); unfold ResumeInv.hdr in *; lia).
       unfold ResumeInv.fin_file at 1. rewrite pragma_is_ld at 1.
-      rewrite (read_header_ld hdrdec default_maxh pragma_body r0 2) by
-        (try exact Hprag; rewrite blen_pragma_body; unfold default_maxh, two63; lia).
+      rewrite (read_header_ld hdrdec (w_maxh o) pragma_body r0 2) by
+        (try exact Hprag; rewrite blen_pragma_body; try exact Hp10; unfold two63; lia).
       cbn [w_v1 with_dpad]. rewrite Ev. cbn [N.eqb Pos.eqb andb orb negb].
       destruct (probe_fin st fi Hfit) as (rest3 & Hpf). rewrite Hpf.
       rewrite data_base_with_dpad by assumption. cbn [h_doff ResumeInv.fin_hdr].
@@ -205,12 +207,12 @@ Section Reject.
   Proof.
     intros Ev Hha.
     assert (Hchk : exists e, resume_checks hdrdec true (with_dpad o p') roots (live_file st) = Err e).
-    { unfold resume_checks.
-      destruct (read_header hdrdec default_maxh (live_file st)) as [[[[r ver] rest] n]|e0]; [|eexists; reflexivity].
+    { unfold resume_checks. cbn [w_maxh with_dpad].
+      destruct (read_header hdrdec (w_maxh o) (live_file st)) as [[[[r ver] rest] n]|e0]; [|eexists; reflexivity].
       destruct (negb (((ver =? 1) && w_v1 (with_dpad o p')) || ((ver =? 2) && negb (w_v1 (with_dpad o p'))))); [eexists; reflexivity|].
       cbn [w_v1 with_dpad]. rewrite Ev. cbn [negb]. rewrite probe_live by exact Ev.
-      unfold header_at in Hha.
-      destruct (read_header hdrdec (w_maxh (with_dpad o p')) (drop (data_base (with_dpad o p')) (live_file st)))
+      unfold header_at in Hha. cbn [w_maxh with_dpad] in Hha.
+      destruct (read_header hdrdec (w_maxh o) (drop (data_base (with_dpad o p')) (live_file st)))
         as [[[[hroots hver] rest2] n2]|e2]; [|eexists; reflexivity].
       rewrite Hha. eexists; reflexivity. }
     destruct Hchk as (e & Hchk). exists e.
